@@ -529,6 +529,80 @@ fn main() {
     run.finish(json!({"states":1,"transitions":hist.len().max(1),"traces_validated_against_impl":1,"samples":[hist_json(&hist)]}), vec![]);
   }
 
+  // ---- handle relations over a dense alphabet: ==, Ord and Hash must all be the relations of the
+  // strings (every ordered pair, handles obtained through every allocation route) ----
+  let pair_stats = {
+    use std::hash::{Hash, Hasher};
+    let mut alphabet: Vec<String> = vec![];
+    for len in 0..=17usize {
+      alphabet.push("a".repeat(len));
+      alphabet.push(format!("{}{}", "a".repeat(len), "\0"));
+      alphabet.push(format!("{}b", "a".repeat(len)));
+      alphabet.push(format!("\0{}", "a".repeat(len)));
+    }
+    alphabet.extend(["\0\0", "ab\0\0", "\u{7f}", "\u{80}", "\u{7ff}", "\u{ffff}", "\u{10ffff}", "A", "aB", "a\u{e9}"].iter().map(|s| s.to_string()));
+    alphabet.sort();
+    alphabet.dedup();
+    let mut heap = Heap::new();
+    // routes: alloc_string (temporary), alloc_string again, the static route
+    let mut handles: Vec<(usize, &'static str, PStr)> = vec![];
+    for (i, st) in alphabet.iter().enumerate() {
+      handles.push((i, "alloc_string", heap.alloc_string(st.clone())));
+    }
+    for (i, st) in alphabet.iter().enumerate().rev() {
+      handles.push((i, "alloc_string again", heap.alloc_string(st.clone())));
+      handles.push((i, "alloc_str_for_test (static route)", heap.alloc_str_for_test(Box::leak(st.clone().into_boxed_str()))));
+    }
+    let hash_of = |h: &PStr| {
+      let mut hs = std::collections::hash_map::DefaultHasher::new();
+      h.hash(&mut hs);
+      hs.finish()
+    };
+    let mut pairs = 0u64;
+    for (i, ri, a) in &handles {
+      match safe_as_str(&heap, *a) {
+        Ok(t) if t == alphabet[*i] => {}
+        other => run.violation("relations:read-back", &format!("handle of {:?} ({ri}) reads back {other:?}", alphabet[*i]), json!({"string": alphabet[*i]})),
+      }
+      for (j, rj, b) in &handles {
+        pairs += 1;
+        let same = alphabet[*i] == alphabet[*j];
+        let what = |rel: &str| format!("{rel} of the handles of {:?} ({ri}) and {:?} ({rj})", alphabet[*i], alphabet[*j]);
+        if (a == b) != same {
+          run.violation("relations:eq", &format!("{} is {}, the strings are {}", what("=="), a == b, if same { "equal" } else { "different" }), json!({"a": alphabet[*i], "b": alphabet[*j]}));
+        }
+        if (a.cmp(b) == std::cmp::Ordering::Equal) != same {
+          run.violation("relations:ord-vs-eq", &format!("{} is {:?}, the strings are {}", what("cmp"), a.cmp(b), if same { "equal" } else { "different" }), json!({"a": alphabet[*i], "b": alphabet[*j]}));
+        }
+        if a.cmp(b) != b.cmp(a).reverse() {
+          run.violation("relations:ord-antisymmetry", &format!("{} is {:?} but the converse is {:?}", what("cmp"), a.cmp(b), b.cmp(a)), json!({"a": alphabet[*i], "b": alphabet[*j]}));
+        }
+        if same && hash_of(a) != hash_of(b) {
+          run.violation("relations:hash", &format!("{} differ although the strings are equal", what("hashes")), json!({"a": alphabet[*i], "b": alphabet[*j]}));
+        }
+      }
+    }
+    // transitivity of the order on all triples of distinct strings (first handle of each)
+    let firsts: Vec<PStr> = (0..alphabet.len()).map(|i| handles[i].2).collect();
+    let mut triples = 0u64;
+    for a in &firsts {
+      for b in &firsts {
+        if a.cmp(b) != std::cmp::Ordering::Less {
+          continue;
+        }
+        for c in &firsts {
+          if b.cmp(c) == std::cmp::Ordering::Less {
+            triples += 1;
+            if a.cmp(c) != std::cmp::Ordering::Less {
+              run.violation("relations:ord-transitivity", "the order on handles is not transitive", json!({}));
+            }
+          }
+        }
+      }
+    }
+    json!({"alphabet": alphabet.len(), "handles": handles.len(), "ordered_pairs_checked": pairs, "ordered_triples_checked": triples})
+  };
+
   let (max_depth, wall_cap) = if run.quick() { (6usize, 45.0) } else { (8usize, 1500.0) };
   let mut seen: HashSet<u64> = HashSet::new();
   let root = build(&[]);
@@ -644,6 +718,7 @@ fn main() {
     "replay_determinism_checked_on": check_hists.len(),
     "exhaustive": !capped,
     "cap": if capped { json!(format!("wall cap {wall_cap}s hit after depth {depth_completed}")) } else { Value::Null },
+    "handle_relations": pair_stats,
     "explanation": "BFS over op histories of the real Heap; every transition executes the real code (the implementation is the transition function) and is checked against the client-side model; states merged by a 64-bit hash of the full hook snapshot + client knowledge.",
   });
   run.finish(
